@@ -125,8 +125,9 @@ func c44Body(p Params) func() {
 
 		// ---- oracle at quiescence (the input has stopped changing) --------------------------------
 		final := content.Peek()
-		out := fmt.Sprintf("compiled=%v", st.compiled)
+		out := ""
 		if !vsched.Passthrough() {
+			out = fmt.Sprintf("compiled=%v", st.compiled)
 			if len(st.compiled) == 0 {
 				vsched.Failf("compile-request-lost:no-compile-ran", "%d changes were requested, no compile ran; %s", p.Changes, vsched.LiveDesc())
 			} else if last := st.compiled[len(st.compiled)-1]; last != final {
@@ -253,14 +254,23 @@ func c45Body(p Params) func() {
 			vsched.Failf("client-registry-not-empty-after-shutdown", "%d clients still registered", n)
 		}
 		admitted, refused := 0, 0
+		detail := ""
 		for k := 0; k < p.Clients; k++ {
 			switch {
 			case !st.hwDone[k]:
 				vsched.Failf("handleWatch-did-not-return", "client %d", k)
+			case st.hwErr[k] != nil && st.conns[k] == nil && strings.Contains(st.hwErr[k].Error(), "shutting down"):
+				refused++
+				detail += fmt.Sprintf(" c%d:refused", k)
 			case st.hwErr[k] != nil:
 				refused++
+				detail += fmt.Sprintf(" c%d:accept-failed", k)
 			default:
 				admitted++
+				detail += fmt.Sprintf(" c%d:admitted,got=%v", k, st.deliv[k])
+				if st.conns[k].Gone() {
+					detail += ",peer-left"
+				}
 			}
 		}
 		for id, c := range st.conns {
@@ -268,6 +278,6 @@ func c45Body(p Params) func() {
 				vsched.Failf("client-connection-left-open-after-shutdown", "client %d", id)
 			}
 		}
-		vsched.SetOutcome(fmt.Sprintf("admitted=%d refused=%d accepted=%d", admitted, refused, len(st.conns)))
+		vsched.SetOutcome(fmt.Sprintf("admitted=%d refused=%d accepted=%d%s", admitted, refused, len(st.conns), detail))
 	}
 }
